@@ -98,9 +98,35 @@ TObsEqual(e) ==
            bad == IF Len(e.a) # Len(e.b) THEN {0}
                   ELSE { i \in 1..Len(e.a) : ~RClose(Obs(e.a[i]), RMul(f, Obs(e.b[i])), RAbs(Obs(e.a[i])), e.tol) }
        IN Verdict(e.id, IF bad = {} THEN "ok" ELSE "fail", bad)
+(* a stiffener-less bay: its skin panels (tiles with their OWN laminate, density, offset) share the skin amplitudes,
+   so the bay matrix is the sum of the tiles' matrices *)
+RECURSIVE SumParts(_,_,_)
+SumParts(parts, r, k) == IF k > Len(parts) THEN <<>>
+                         ELSE LET M == QuantityDev(CompleteDef(DecPd(parts[k])), r, Deviations)
+                                  rest == SumParts(parts, r, k+1)
+                              IN IF rest = <<>> THEN M ELSE PAddM(M, rest)
+RECURSIVE FirstKFSum(_,_,_,_)
+FirstKFSum(cands, obs, parts, r) ==
+    IF cands = {} THEN {}
+    ELSE LET k == CHOOSE x \in cands : \A y \in cands : Cardinality(x) <= Cardinality(y)
+             RECURSIVE S(_)
+             S(i) == IF i > Len(parts) THEN <<>>
+                     ELSE LET M == QuantityDev(CompleteDef(DecPd(parts[i])), r, k)  rest == S(i+1)
+                          IN IF rest = <<>> THEN M ELSE PAddM(M, rest)
+         IN IF BadEntries(obs, S(1)) = {} THEN k ELSE FirstKFSum(cands \ {k}, obs, parts, r)
+TSum(e) ==
+    LET r == DecReq(e.req)
+        E == SumParts(e.parts, r, 1)
+    IN /\ def' = CompleteDef(DecPd(e.parts[1])) /\ req' = r /\ out' = E
+       /\ LET bad == BadEntries(e.obs, E)
+          IN IF bad = {} /\ e.flags_ok THEN Verdict(e.id, "ok", {})
+             ELSE LET k == IF e.flags_ok THEN FirstKFSum(KFCands, e.obs, e.parts, r) ELSE {}
+                  IN IF k # {} THEN Verdict(e.id, "kf:" \o JoinNames(k), Cardinality(bad))
+                     ELSE Verdict(e.id, "fail", IF Cardinality(bad) > 12 THEN <<Cardinality(bad), CHOOSE x \in bad : TRUE>> ELSE bad)
 TStep == /\ l <= Len(Trace)
          /\ l' = l + 1
          /\ LET e == Trace[l] IN IF e.ev = "define" THEN TDefine(e)
+                                 ELSE IF e.ev = "sum" THEN TSum(e)
                                  ELSE IF e.ev = "obs_equal" THEN TObsEqual(e) ELSE TEval(e)
 TSpec == TInit /\ [][TStep]_tvars
 Done == TLCGet("stats").diameter - 1 = Len(Trace)
